@@ -136,8 +136,10 @@ def bath_modes(chk, n):
         sz = np.array([[1.0, 0], [0, -1.0]])
         # every second case: the same pure-dephasing model in a rotated basis (coupling and Hamiltonian along another axis,
         # complex eigenvectors for sigma_y): the closed form does not change
-        axis = ["z", "x", "z", "y"][it % 4]
-        if axis != "z":
+        axis = ["z", "y", "n", "x"][it % 4]          # n: a direction with x, y and z components (eigenvectors neither real nor those of sigma_y)
+        if axis == "n":
+            sz = 0.36 * np.array(oqupy.operators.sigma("x")) + 0.48 * np.array(oqupy.operators.sigma("y")) + 0.8 * np.array(oqupy.operators.sigma("z"))
+        elif axis != "z":
             sz = np.array(oqupy.operators.sigma(axis))
         bath = oqupy.Bath(sz, corr)
         sysm = oqupy.System(rng.choice([0.0, 1.0, -0.7]) * sz)
